@@ -77,6 +77,20 @@ def gen(ctx):
     return single, pipes
 
 
+def gen_env(ctx):
+    """commands with environment overrides: printed as NAME=value words in front of the command"""
+    rng = SplitMix64(ctx.seed ^ 0xe19)
+    names = ["VERIF_A", "VERIF_B1", "_V", "VERIF_LONG_NAME"]
+    vals = ["two words", "", "x", "a:b", "k=v", "it's", "$HOME", "a\nb", "*", " ", "\\", "'", "\"", "`id`", ";", "#c", "~", "é"]
+    out = []
+    for v in vals:
+        out.append(([("VERIF_A", v)], ["prog", "arg", v]))
+    for _ in range(60 if ctx.tier == "quick" else 1500):
+        env = [(rng.choice(names), rng.choice(vals) if rng.below(2) else rand_arg(rng)) for _ in range(1 + rng.below(3))]
+        out.append((env, [rng.choice(NAMES[:5])] + [rand_arg(rng) for _ in range(rng.below(4))]))
+    return out
+
+
 def rand_fragment(rng, cmd_mode):
     """random text of the supported sh fragment (for validating the specification against dash)"""
     def word(first):
@@ -121,7 +135,7 @@ def check(ctx):
     ctx.assumptions += ["program name is not an sh reserved word (known finding C19:command-is-sh-reserved-word)",
                         "command position is exercised for program names without '/' that are not sh builtins (. : [ printf ...), "
                         "through a PATH of links to an argv dumper",
-                        "env = None form of to_cmdline_lossy (K=V prefixes are outside the property statement)",
+                        "environment overrides (K=V prefixes) are judged by the real sh only: the Lean shell-side specification refuses an unquoted `=`",
                         "arguments are valid Unicode without NUL"]
     if not ctx.cargo_build():
         return
@@ -144,15 +158,23 @@ def check(ctx):
         single, pipes = ([rp["argv"]] if "argv" in rp else []), ([rp["stages"]] if "stages" in rp else [])
     else:
         single, pipes = gen(ctx)
-    cases = [("sh", a) for a in single] + [("shp", st) for st in pipes]
+    envc = [] if ctx.replay else gen_env(ctx)
+    cases = [("sh", a) for a in single] + [("shp", st) for st in pipes] + [("she", ec) for ec in envc]
     def req(kind, c):
+        if kind == "she":
+            env, argv = c
+            return "she " + ",".join(f"{hx(k)}:{hx(v)}" for k, v in env) + " " + " ".join(hx(a) for a in argv)
         if kind == "sh":
             return "sh " + " ".join(hx(a) for a in c)
         return "shp " + " / ".join(" ".join(hx(a) for a in st) for st in c)
     text = "".join(req(k, c) + "\n" for k, c in cases)
     impl = subprocess.run([hplain, "sh"], input=text.encode(), stdout=subprocess.PIPE).stdout.decode().splitlines()
-    model = ctx.run_driver(text)
-    if len(impl) != len(cases) or len(model) != len(cases):
+    # environment overrides are outside the Lean renderer model (its shell-side specification refuses an unquoted `=`):
+    # those cases are judged by the real sh only
+    model_text = "".join(req(k, c) + "\n" for k, c in cases if k != "she")
+    model_it = iter(ctx.run_driver(model_text))
+    model = [None if k == "she" else next(model_it, "missing") for k, c in cases]
+    if len(impl) != len(cases) or "missing" in model:
         ctx.broken_correspondence({"what": f"answer count mismatch impl={len(impl)} model={len(model)} cases={len(cases)}"})
         return
     # the pretty Debug form, where it differs from the plain one, rides along as ` alt=<hex>`
@@ -162,7 +184,7 @@ def check(ctx):
     # (A) renderer correspondence
     mism = 0
     for (k, c), a, b in zip(cases, impl, model):
-        if a != b:
+        if b is not None and a != b:
             mism += 1
             if mism == 1:
                 ctx.broken_correspondence({"what": "model and implementation render different text", "case": [k, c],
@@ -181,6 +203,11 @@ def check(ctx):
                 reqs.append(f"words {alt}"); meta.append(("words", c, alt))
             else:
                 reqs.append(f"cmds {shdir} {alt}"); meta.append(("cmds", c, alt))
+        if k == "she":
+            # the assignments must stay assignments: sh has to start the program itself, with its arguments
+            if link(c[1][0]):
+                reqs.append(f"cmds {shdir} {t}"); meta.append(("cmds-env", [c[1]], t))
+            continue
         if k == "sh":
             reqs.append(f"words {t}"); meta.append(("words", c, t))
             if c[0] in NAMES or link(c[0]):
@@ -207,10 +234,10 @@ def check(ctx):
     spec_mism = 0
     nontrivial = set()
     for (mode, c, t), r, s in zip(meta, real, spec):
-        if mode in ("cmds", "frag-cmds"):
+        if mode in ("cmds", "frag-cmds", "cmds-env"):
             r, s = canon_cmds(r), canon_cmds(s)
         # (C) spec vs real sh
-        skip_spec = False
+        skip_spec = mode == "cmds-env"
         if mode == "cmds" and any(st[0] in BASH_ONLY for st in c):
             skip_spec = True
         if not skip_spec and r != "unrepresentable":
@@ -232,7 +259,7 @@ def check(ctx):
                 sig = None
                 ctx.violation({"argv": c, "rendered": unhx(t).decode("utf8", "replace"), "sh_result": r, "expected": want,
                                "what": "sh evaluating the printed command line does not reproduce the argument list"}, sig)
-        elif mode == "cmds":
+        elif mode in ("cmds", "cmds-env"):
             dist["oracle_cmds"] += 1
             want = canon_cmds("some " + " / ".join(" ".join(hx(a) for a in st) for st in c))
             if r != want and r != "unrepresentable":
